@@ -581,8 +581,14 @@ fn recover_and_check(img: &Image, old_root: &str, admissible: &[M13], buffer: us
         let _ = std::fs::remove_file(&lp); // the materialisation itself was logged: start the log at the recovery
     }
     let new_root = scratch.path().to_str().unwrap().to_string();
+    // the log of the recovery proper (StorageEngine::new), taken before the probe suffix writes anything
+    let recovery_log: std::sync::Mutex<Option<String>> = std::sync::Mutex::new(None);
     let r = catch_unwind(AssertUnwindSafe(|| -> Option<Verdict> {
-        let s = match StorageEngine::new(mk_config(scratch.path(), buffer, DurabilityMode::Immediate, None)) {
+        let opened = StorageEngine::new(mk_config(scratch.path(), buffer, DurabilityMode::Immediate, None));
+        if record_recovery {
+            *recovery_log.lock().unwrap() = Some(std::fs::read_to_string(&lp).unwrap_or_default());
+        }
+        let s = match opened {
             Ok(s) => s,
             Err(e) => return Some(Verdict { class: format!("recovery_failed:{tag}"), detail: format!("StorageEngine::new failed: {e}") }),
         };
@@ -619,11 +625,20 @@ fn recover_and_check(img: &Image, old_root: &str, admissible: &[M13], buffer: us
             }
             after_delete.insert(kg.clone(), BTreeSet::new());
         }
+        // ... and one fresh tuple is inserted: an acknowledged write after a recovery must survive too
+        let fresh = Tuple::new(vec![Value::Int64(9), Value::Int64(9)]);
+        if let Err(e) = s.insert_tuples_into(DKG, "probe", vec![fresh.clone()]) {
+            return Some(Verdict { class: format!("probe_insert_failed:{tag}"), detail: e.to_string() });
+        }
         drop(s);
         let s2 = match StorageEngine::new(mk_config(scratch.path(), buffer, DurabilityMode::Immediate, None)) {
             Ok(s) => s,
             Err(e) => return Some(Verdict { class: format!("restart_after_recovery_failed:{tag}"), detail: e.to_string() }),
         };
+        let probe_rows = s2.execute_query_tuples_on(DKG, "vq(X, Y) <- probe(X, Y)").unwrap_or_default();
+        if probe_rows.len() != 1 || !crate::e5::same_tuple(&probe_rows[0], &fresh) {
+            return Some(Verdict { class: format!("latent_damage_write_after_recovery_lost:{tag}"), detail: format!("after recovery (serving {got:?}) a fresh tuple was inserted and acknowledged; after a clean restart relation probe holds {:?}", probe_rows.iter().map(|t| t.to_string()).collect::<Vec<_>>()) });
+        }
         match observe13(&s2) {
             Ok(g2) if g2 == after_delete => None,
             Ok(g2) => Some(Verdict { class: format!("latent_damage_deleted_tuple_resurrected:{tag}"), detail: format!("after recovery the store served {got:?}; every tuple was then deleted and the store restarted cleanly, but it serves {g2:?}") }),
@@ -635,7 +650,7 @@ fn recover_and_check(img: &Image, old_root: &str, admissible: &[M13], buffer: us
         Err(p) => Some(Verdict { class: format!("recovery_panicked:{tag}"), detail: crate::e1::panic_msg(&p) }),
     };
     let nested = if record_recovery {
-        let text = std::fs::read_to_string(&lp).unwrap_or_default();
+        let text = recovery_log.lock().unwrap().take().unwrap_or_default();
         let _ = std::fs::remove_file(&lp);
         parse_log(&text).ok().map(|r| (r, new_root))
     } else {
@@ -724,6 +739,18 @@ pub fn explore13(h: &[W13], buffer: usize, nested: bool, st: &mut CrashStats, re
                         st.nested_recoveries += 1;
                         let (v2, _) = recover_and_check(&img2, &rec.old_root, &adm, buffer, &format!("{tag}:crash_during_recovery"), false);
                         if let Some(v2) = v2 {
+                            if std::env::var("VERIF_E3_DEBUG").is_ok() {
+                                eprintln!("E3DEBUG first-level crash {crash}, nested crash {ncrash}, choice {nch:?}: {}", v2.detail);
+                                for (k, r) in nrecs.iter().enumerate().take(ncrash + 2) {
+                                    eprintln!("   rec[{k}] {}", short_rec(r));
+                                }
+                                let mut fl: Vec<String> = img2.files.iter().map(|(p, c)| format!("{}({})", p.rsplit('/').take(2).collect::<Vec<_>>().join("<"), c.len())).collect();
+                                fl.sort();
+                                eprintln!("   nested image files: {fl:?}");
+                                let dd = std::path::PathBuf::from(format!("/dev/shm/t/img2-{crash}-{ncrash}"));
+                                let _ = std::fs::remove_dir_all(&dd);
+                                let _ = materialize(&img2, &rec.old_root, &dd);
+                            }
                             report(v2.class, json!({"first_level": case, "nested_crash_after_record": ncrash}), format!("history [{}] buffer_size {buffer}: crash after fs record #{crash}, then a second crash after record #{ncrash} of the recovery: {}", h.iter().map(|o| w13_name(*o)).collect::<Vec<_>>().join("; "), v2.detail));
                         }
                     }
